@@ -4,6 +4,7 @@
    all points at which the peer closes a connection, any number of connections and requests. *)
 From Coq Require Import List Arith Bool NArith.
 From TarsV Require Import Conc.ClientConn Conc.ClientConnProofs.
+From TarsV Require Conc.ClientConnConsts Gen.Consts.
 Import ListNotations.
 
 (* --- "a connection loss never makes a later healthy connection be treated as closed" ------------------- *)
@@ -84,6 +85,10 @@ Theorem C11_spec_machine_sound : forall ls s, run true init ls = Some s ->
   Forall (fun l => client_close l = false) ls -> c11_accepts (log s) = true.
 Proof. exact ClientConnProofs.spec_machine_sound. Qed.
 
+(* the capacity of sendFailQueue in the tree is the one the model assumes (regenerated constant) *)
+Theorem C11_failq_capacity : Gen.Consts.c_c11_failq_cap = 1%N.
+Proof. exact ClientConnConsts.failq_capacity_modelled. Qed.
+
 (* --- the pinned client violates all clauses (design-time defect, reproduced by the harness) ------------- *)
 Theorem C11_pinned_refuted : exists s, run false init sched_defect = Some s /\
   In (0, 1, true) (atts s) /\ In 1 (late (gens s 0)) /\
@@ -106,6 +111,7 @@ Print Assumptions C11_delivery.
 Print Assumptions C11_call_after_known_close.
 Print Assumptions C11_delivery_example.
 Print Assumptions C11_spec_machine_sound.
+Print Assumptions C11_failq_capacity.
 Print Assumptions C11_no_write_to_dead_literal_refuted.
 Print Assumptions C11_pinned_refuted.
 Print Assumptions C11_repaired_example.
